@@ -40,6 +40,8 @@ fn substitute(
                     }
                     let offset =
                         *journaled_sp - (*journaled_sp & bitmask.clone().try_to_i64().unwrap());
+                    // The alignment operation changes the stack pointer offset, too.
+                    *journaled_sp -= offset;
                     let sp = sp.clone();
                     *op = BinOpType::IntSub;
 
